@@ -338,7 +338,30 @@ def compare(w: World) -> list[tuple[str, str]]:
     walk(w.tree._root, w.mtree.root, "")
     for v in view.wf_violations(w.tree):
         diffs.append(("wf." + v.split(":")[0], v))
+    if not diffs:
+        diffs += stale_handles(w)
     return diffs
+
+
+def stale_handles(w: World) -> list[tuple[str, str]]:
+    """"Nodes that were removed are neither reachable nor counted" -- also not through a handle the caller kept: a removed
+    node must refuse to take a child and to be moved back, and the attempt must leave the tree as it is."""
+    out: list[tuple[str, str]] = []
+    live = {id(n) for n in view.reachable(w.tree)}
+    stale = [n for n in w.keep if id(n) in w.uid and id(n) not in live and n is not w.tree._root][:3]
+    for n in stale:
+        for what, call in (("add('zz')", lambda n=n: n.add("zz_stale")), ("move_to(tree)", lambda n=n: n.move_to(w.tree))):
+            before = view.obs(w.tree)
+            try:
+                call()
+                raised = False
+            except Exception:  # noqa: BLE001  (any refusal will do: nothing documents the class)
+                raised = True
+            bad = view.wf_violations(w.tree)
+            if not raised or bad or view.obs(w.tree) != before:
+                out.append(("wf.stale", f"removed node {n!r}.{what} {'was accepted' if not raised else 'raised'}; tree afterwards {view.fmt(w.tree)}; count={w.tree.count}; {'; '.join(bad[:2])}"))
+                return out
+    return out
 
 
 def step(w: World, op: tuple) -> list[tuple[str, str]]:
